@@ -231,7 +231,81 @@ def run(ctx, scale=1):
             if hits:
                 out_fail.append({"input": {"kind": "late-reply", "stored": stored, "given": given}, "what": "password fragment %r in a %s record of %s (%s) after the reply to PASS did not arrive within socket_timeout: %r" % (hits[0][4], hits[0][1], hits[0][0], hits[0][2], hits[0][3][-300:]), "signature": "C20:late-reply-leak"})
 
+    async def same_account(cap):
+        """several sessions of ONE account, one of them ends, another logs in again (as itself, as somebody else):
+        state the server keeps per user is shared between them, and an error on that path may want to name the user"""
+        for i in range(4 * scale):
+            pw, canaries = c20.make_password(rng, ("bare", "percent", "nonascii", "bare")[i % 4])
+            users = [aioftp.User("bob", pw, read_speed_limit=100000 if i % 2 else None), aioftp.User("eve", "other-Pw")]
+            server = aioftp.Server(users)
+            await server.start("127.0.0.1", 0)
+            cap.take()
+            try:
+                socks = []
+                for k in range(2):
+                    r, w = await asyncio.open_connection("127.0.0.1", server.server_port)
+                    await asyncio.wait_for(r.readline(), 1)
+                    for line in (b"USER bob\r\n", ("PASS %s\r\n" % pw).encode("utf-8")):
+                        w.write(line)
+                        await asyncio.wait_for(r.readline(), 1)
+                    socks.append((r, w))
+                socks[0][1].close()
+                await asyncio.sleep(0.05)
+                r, w = socks[1]
+                follow = [b"USER bob\r\n", ("PASS %s\r\n" % pw).encode("utf-8"), b"PWD\r\n"] if i < 2 * scale else [b"USER eve\r\n", b"PASS other-Pw\r\n", b"USER bob\r\n", ("PASS %s\r\n" % pw).encode("utf-8")]
+                for line in follow:
+                    try:
+                        w.write(line)
+                        await asyncio.wait_for(r.readline(), 1)
+                    except Exception:  # noqa
+                        break
+                w.close()
+                await asyncio.sleep(0.05)
+            finally:
+                await server.close()
+            recs = cap.take()
+            res.cases += 1
+            res.count("sessions_of_one_account")
+            res.distinct.add(("same-account", i))
+            hits = c20.canary_hits(recs, canaries)
+            if hits:
+                out_fail.append({"input": {"kind": "sessions-of-one-account", "password": pw, "then": [x.decode("utf-8", "replace").strip().split(" ")[0] for x in follow]}, "what": "password fragment %r in a %s record of %s (%s) after one of two sessions of the account had gone and the other logged in again: %r" % (
+                    hits[0][4], hits[0][1], hits[0][0], hits[0][2], hits[0][3][-300:]), "signature": "C20:account-shared-state-leak"})
+
+    async def unencodable(cap):
+        """a password the client's encoding cannot represent: the command cannot be sent; whatever is logged or raised
+        on the way must not carry it"""
+        for i, (enc, mk) in enumerate((("latin-1", lambda a, b: a + "\u043f\u0430\u0440\u043e\u043b\u044c" + b), ("latin-1", lambda a, b: a + "\u03a9" + b), ("ascii", lambda a, b: a + "\u00e9" + b),
+                                      ("utf-8", lambda a, b: a + "\udc80" + b), ("cp1251", lambda a, b: a + "\u00e9\u4e2d" + b)) * scale):
+            head, tail = c20.token(rng, 6), c20.token(rng, 6)
+            pw = mk(head, tail)
+            server = aioftp.Server([aioftp.User("bob", "other-Pw")])
+            await server.start("127.0.0.1", 0)
+            cap.take()
+            client = aioftp.Client(encoding=enc)
+            outcome = "sent"
+            try:
+                await asyncio.wait_for(client.connect("127.0.0.1", server.server_port), 2)
+                await asyncio.wait_for(client.login("bob", pw), 2)
+            except UnicodeEncodeError:
+                outcome = "UnicodeEncodeError"  # (its text shows the whole string: the caller's own argument, not a log record)
+            except Exception as e:  # noqa
+                outcome = type(e).__name__
+            client.close()
+            await asyncio.sleep(0.02)
+            await server.close()
+            recs = cap.take()
+            res.cases += 1
+            res.count("unencodable_password:" + outcome)
+            res.distinct.add(("unencodable", enc, i % 5))
+            hits = c20.canary_hits(recs, [head, tail])
+            if hits:
+                out_fail.append({"input": {"kind": "unencodable-password", "encoding": enc, "password": pw.encode("ascii", "backslashreplace").decode("ascii")}, "what": "password fragment %r in a %s record of %s (%s): the client (encoding %s) could not encode the PASS line: %r" % (
+                    hits[0][4], hits[0][1], hits[0][0], hits[0][2], enc, hits[0][3][-300:]), "signature": "C20:unencodable-pass-line-leak"})
+
     async def main(cap):
+        await same_account(cap)
+        await unencodable(cap)
         await late_reply(cap)
         await scripted(cap)
         await mismatch(cap)
